@@ -7,17 +7,47 @@ import (
 	"io"
 	"math/rand"
 	"os"
-	"time"
+	"sort"
 	"strings"
+	"time"
 
 	"filippo.io/age"
 	"filippo.io/age/armor"
 	"filippo.io/age/internal/format"
 	"filippo.io/age/internal/stream"
+	"filippo.io/age/zverif/ax"
 	"filippo.io/age/zverif/mon"
 )
 
-var readBufs = []int{1, 2, 100, 4096, 65535, 65536, 65537, 200000}
+// How the caller consumes the plaintext reader: Read in a loop with a buffer
+// of the given size, or (negative values, shared with ax) io.Copy into a plain
+// Writer — which uses the reader's own WriteTo if it has one — or io.ReadAll.
+var readBufs = []int{1, 2, 100, 4096, 65535, 65536, 65537, 200000, ax.CopyMode, ax.ReadAllMode}
+
+func bufName(b int) string {
+	switch b {
+	case ax.CopyMode:
+		return "io.Copy"
+	case ax.ReadAllMode:
+		return "io.ReadAll"
+	}
+	return fmt.Sprint(b)
+}
+
+// hookWriter is the plain destination of io.Copy: no ReadFrom, so io.Copy
+// must use the source's WriteTo or plain Reads.
+type hookWriter struct {
+	o     *outcome
+	after func(released int)
+}
+
+func (h hookWriter) Write(p []byte) (int, error) {
+	h.o.out = append(h.o.out, p...)
+	if h.after != nil {
+		h.after(len(h.o.out))
+	}
+	return len(p), nil
+}
 
 // outcome is the compared value: bytes released before the first error and
 // that error's string ("EOF" for a clean end). hdr is used by the Parse layer.
@@ -50,7 +80,7 @@ type sched struct {
 	own  int
 }
 
-func schedules() []sched {
+func schedules(thorough bool) []sched {
 	var out []sched
 	base := mon.Schedules()
 	for _, s := range base {
@@ -80,12 +110,48 @@ func schedules() []sched {
 		}}
 	}
 	out = append(out, counted("bufio16/counted", "whole", 16), counted("bufio4096over7/counted", "7", 4096))
+	if thorough {
+		// further seeded piece sequences (the name selects the random stream)
+		for _, n := range []string{"random", "random+eof"} {
+			for k := 2; k <= 4; k++ {
+				for _, s := range out {
+					if s.name == n {
+						s.name = fmt.Sprintf("%s#%d", n, k)
+						out = append(out, s)
+						break
+					}
+				}
+			}
+		}
+	}
 	return out
 }
 
-// readAll reads rd to its first error with a fixed buffer size; after is
-// called after every Read with the number of bytes released so far.
+// readAll consumes rd to its first error, with a fixed Read-buffer size or in
+// one of the consumption modes; after is called after every Read (or, under
+// io.Copy, after every Write to the destination) with the number of bytes
+// released so far. A clean end is recorded as "EOF" in every mode.
 func readAll(rd io.Reader, bufSize int, o *outcome, phase string, after func(released int)) {
+	switch bufSize {
+	case ax.CopyMode:
+		_, err := io.Copy(hookWriter{o, after}, rd)
+		o.err, o.phase = "EOF", "io.Copy"
+		if err != nil {
+			o.err = err.Error()
+		}
+		return
+	case ax.ReadAllMode:
+		b, err := io.ReadAll(rd)
+		o.out = append(o.out, b...)
+		if after != nil {
+			after(len(o.out))
+		}
+		o.err, o.phase = "EOF", "io.ReadAll"
+		if err != nil {
+			o.err = err.Error()
+		}
+		return
+	}
 	buf := make([]byte, bufSize)
 	zero := 0
 	for {
@@ -141,22 +207,39 @@ type watcher struct {
 	bound  func(released int) int
 	need   func(released int) int // what had to be consumed at least (for the max statistic)
 	broken *ahead
+
+	binding  int64
+	maxAhead int64
 }
 
-func (w *watcher) check(when string, released int) {
+func (w *watcher) check(when string, call, released int) {
 	if w == nil || w.cr == nil {
 		return
 	}
 	b := w.bound(released)
 	if w.total > b {
-		w.m.binding.Add(1)
+		w.binding++
 	}
 	if w.need != nil {
-		maxInto(&w.m.maxAhead, int64(w.cr.N-w.need(released)))
+		if a := int64(w.cr.N - w.need(released)); a > w.maxAhead {
+			w.maxAhead = a
+		}
 	}
 	if w.cr.N > b && w.broken == nil {
+		if call > 0 {
+			when = fmt.Sprintf("%s #%d", when, call)
+		}
 		w.broken = &ahead{when, w.cr.N, b, released}
 	}
+}
+
+// done publishes the run's statistics and returns the first broken bound.
+func (w *watcher) done() *ahead {
+	if w.binding > 0 {
+		w.m.binding.Add(w.binding)
+	}
+	maxInto(&w.m.maxAhead, w.maxAhead)
+	return w.broken
 }
 
 // runDecrypt drives age.Decrypt (through armor.NewReader for armored files).
@@ -174,21 +257,21 @@ func (m *monitor) runDecrypt(f *dfile, src io.Reader, cr *mon.CountingReader, ow
 		in = armor.NewReader(src)
 	}
 	rd, err := age.Decrypt(in, f.id)
-	w.check("after Decrypt returned", 0)
+	w.check("after Decrypt returned", 0, 0)
 	if err != nil {
 		o.err, o.phase = err.Error(), "Decrypt"
-		return o, w.broken
+		return o, w.done()
 	}
 	if rd == nil {
 		o.err, o.phase = "verif: Decrypt returned (nil, nil)", "Decrypt"
-		return o, w.broken
+		return o, w.done()
 	}
 	n := 0
 	readAll(rd, bufSize, o, "Read", func(rel int) {
 		n++
-		w.check(fmt.Sprintf("after Read #%d", n), rel)
+		w.check("after Read", n, rel)
 	})
-	return o, w.broken
+	return o, w.done()
 }
 
 // runDearmor drives armor.NewReader alone.
@@ -200,9 +283,9 @@ func (m *monitor) runDearmor(f *dfile, src io.Reader, cr *mon.CountingReader, ow
 	n := 0
 	readAll(rd, bufSize, o, "Read", func(rel int) {
 		n++
-		w.check(fmt.Sprintf("after Read #%d", n), rel)
+		w.check("after Read", n, rel)
 	})
-	return o, w.broken
+	return o, w.done()
 }
 
 func headerString(h *format.Header) string {
@@ -228,21 +311,21 @@ func (m *monitor) runParse(f *dfile, in io.Reader, cr *mon.CountingReader, own, 
 	w := &watcher{m: m, cr: cr, total: len(f.data)}
 	w.bound = func(rel int) int { return f.hdr16 - 16 + rel + slack + own }
 	h, payload, err := format.Parse(in)
-	w.check("after Parse returned", 0)
+	w.check("after Parse returned", 0, 0)
 	if err != nil {
 		o.err, o.phase = err.Error(), "Parse"
 		if h != nil || payload != nil {
 			o.hdr = "non-nil results with an error"
 		}
-		return o, w.broken
+		return o, w.done()
 	}
 	o.hdr = headerString(h)
 	if payload == nil {
 		o.err, o.phase = "verif: Parse returned a nil payload reader", "Parse"
-		return o, w.broken
+		return o, w.done()
 	}
 	readAll(payload, bufSize, o, "payload Read", nil)
-	return o, w.broken
+	return o, w.done()
 }
 
 // runStream drives internal/stream.NewReader directly over the payload.
@@ -251,17 +334,17 @@ func (m *monitor) runStream(f *dfile, in io.Reader, cr *mon.CountingReader, own,
 	w := &watcher{m: m, cr: cr, total: len(f.data) - f.hdr16}
 	w.bound = func(rel int) int { return binBound(0, rel) + own }
 	rd, err := stream.NewReader(f.streamKey, in)
-	w.check("after NewReader returned", 0)
+	w.check("after NewReader returned", 0, 0)
 	if err != nil {
 		o.err, o.phase = err.Error(), "NewReader"
-		return o, w.broken
+		return o, w.done()
 	}
 	n := 0
 	readAll(rd, bufSize, o, "Read", func(rel int) {
 		n++
-		w.check(fmt.Sprintf("after Read #%d", n), rel)
+		w.check("after Read", n, rel)
 	})
-	return o, w.broken
+	return o, w.done()
 }
 
 func (f *dfile) payload() []byte {
@@ -282,7 +365,7 @@ func (m *monitor) baselines(f *dfile) {
 			r.Violate("dec-baseline-not-plaintext:"+f.name(), fmt.Sprintf("%s: baseline decryption of a valid file gives %s, want the %d plaintext bytes and EOF", f.name(), f.bDecrypt, len(f.pt)), f.replay())
 		}
 	}
-	if f.armored {
+	if f.dearmor {
 		f.bDearmor, _ = m.runDearmor(f, bytes.NewReader(f.data), nil, 0, b)
 		r.Eval(1)
 		r.Tab("baseline_dearmor_result", errClass(f.bDearmor.err))
@@ -336,9 +419,15 @@ func (m *monitor) decryptSweep(files []*dfile) {
 		}
 		files = ok
 	}
-	ss := schedules()
+	ss := schedules(r.Thorough())
 	r.Set("delivery_schedules", len(ss))
-	r.Set("read_buffer_sizes", readBufs)
+	r.Set("read_buffer_sizes_and_modes", func() []string {
+		var o []string
+		for _, b := range readBufs {
+			o = append(o, bufName(b))
+		}
+		return o
+	}())
 	var tasks []task
 	for _, f := range files {
 		for _, s := range ss {
@@ -353,29 +442,143 @@ func (m *monitor) decryptSweep(files []*dfile) {
 			fmt.Printf("   timing: slow task %s sched=%s %.1fs\n", t.f.name(), t.s.name, d.Seconds())
 		}
 	})
+	m.reportDiffers(ss)
 	for _, f := range files[:min(len(files), 3)] {
 		r.Sample(map[string]any{"file": f.name(), "bytes": len(f.data), "baseline": f.bDecrypt.String(),
-			"result": fmt.Sprintf("same (released bytes, error) under %d schedules x %d read buffers", len(ss), len(readBufs))})
+			"schedules": len(ss), "read_buffers": len(readBufs), "runs_compared_all_layers": f.runs.Load(), "runs_differing_from_baseline": f.mismatches.Load()})
 	}
 	for _, f := range files {
 		if f.class == "trailing-1" || f.class == "armor-badchar" || f.class == "trunc-boundary" {
 			r.SampleN("damaged-"+f.class, 1, map[string]any{"file": f.name(), "derivation": f.how, "baseline": f.bDecrypt.String(),
-				"result": "same (released bytes, error) under every schedule x read buffer"})
+				"runs_compared_all_layers": f.runs.Load(), "runs_differing_from_baseline": f.mismatches.Load()})
 		}
 	}
 }
 
-func (m *monitor) differs(layer string, f *dfile, s sched, bufio, buf int, got, want *outcome) {
-	key := fmt.Sprintf("differs:%s/%s/%s/sched=%s", layer, f.fmtName(), f.class, s.name)
-	if bufio > 0 {
-		key += fmt.Sprintf("/bufio=%d", bufio)
+// groupKey is everything of a comparison except the delivery schedule.
+type groupKey struct{ layer, fm, class, consume, bufio string }
+
+func (g groupKey) key(sched string) string {
+	return fmt.Sprintf("differs:%s/%s/%s%s/sched=%s%s", g.layer, g.fm, g.class, g.consume, sched, g.bufio)
+}
+
+type mismatch struct {
+	what string
+	rp   map[string]any
+}
+
+type group struct {
+	ran    map[string]bool      // schedules under which this combination was run
+	failed map[string]*mismatch // first differing run per schedule
+	nfail  int
+}
+
+func groupOf(layer string, f *dfile, bufio, buf int) groupKey {
+	g := groupKey{layer: layer, fm: f.fmtName(), class: f.class}
+	if buf < 0 {
+		g.consume = "/consume=" + bufName(buf)
 	}
-	d := firstDiff(got.out, want.out)
+	if bufio > 0 {
+		// bufio.NewReader re-uses a handed-in reader only from 4096 bytes up
+		if bufio < 4096 {
+			g.bufio = "/handed-in-bufio<4096"
+		} else {
+			g.bufio = "/handed-in-bufio>=4096"
+		}
+	}
+	return g
+}
+
+// compare records one compared run and, if it differs from the baseline, the
+// mismatch; violations are reported by reportDiffers after the sweep so that
+// a result that differs under every schedule gets one key, not sixteen.
+func (m *monitor) compare(layer string, f *dfile, s sched, bufio, buf int, got, want *outcome) {
+	f.runs.Add(1)
+	gk := groupOf(layer, f, bufio, buf)
+	eq := got.equal(want)
+	m.gmu.Lock()
+	g := m.groups[gk]
+	if g == nil {
+		g = &group{ran: map[string]bool{}, failed: map[string]*mismatch{}}
+		m.groups[gk] = g
+	}
+	g.ran[s.name] = true
+	first := false
+	if !eq {
+		g.nfail++
+		if g.failed[s.name] == nil {
+			g.failed[s.name] = &mismatch{}
+			first = true
+		}
+	}
+	mm := g.failed[s.name]
+	m.gmu.Unlock()
+	if eq {
+		return
+	}
+	f.mismatches.Add(1)
+	if !first {
+		return
+	}
 	rp := f.replay()
-	rp["layer"], rp["schedule"], rp["handed_in_bufio_size"], rp["read_buffer"] = layer, s.name, bufio, buf
+	rp["layer"], rp["schedule"], rp["handed_in_bufio_size"], rp["read_buffer_or_mode"] = layer, s.name, bufio, bufName(buf)
 	rp["got"], rp["want"] = got.String(), want.String()
-	m.r.Violate(key, fmt.Sprintf("%s through %s, schedule %s, bufio %d, read buffer %d: got %s; baseline (bytes.Reader, 32 KiB) gave %s; released bytes first differ at %d",
-		f.name(), layer, s.name, bufio, buf, got, want, d), rp)
+	what := fmt.Sprintf("%s through %s, schedule %s, handed-in bufio %d, read buffer/mode %s: got %s; baseline (bytes.Reader, 32 KiB Read loop) gave %s",
+		f.name(), layer, s.name, bufio, bufName(buf), got, want)
+	if !bytes.Equal(got.out, want.out) {
+		what += fmt.Sprintf("; released bytes first differ at %d", firstDiff(got.out, want.out))
+	}
+	m.gmu.Lock()
+	mm.what, mm.rp = what, rp
+	m.gmu.Unlock()
+}
+
+func (m *monitor) reportDiffers(order []sched) {
+	m.gmu.Lock()
+	defer m.gmu.Unlock()
+	var gks []groupKey
+	for gk, g := range m.groups {
+		if len(g.failed) > 0 {
+			gks = append(gks, gk)
+		}
+	}
+	sort.Slice(gks, func(i, j int) bool { return gks[i].key("") < gks[j].key("") })
+	for _, gk := range gks {
+		g := m.groups[gk]
+		if gk.consume != "" {
+			// io.Copy / io.ReadAll differing under a schedule under which the
+			// plain Read loops differ as well is the same symptom: it is
+			// reported under the plain key only
+			plain := gk
+			plain.consume = ""
+			if pg := m.groups[plain]; pg != nil {
+				for sn := range pg.failed {
+					if g.failed[sn] != nil {
+						delete(g.failed, sn)
+						m.r.Count("mode_mismatches_subsumed_by_read_loop_mismatch", 1)
+					}
+				}
+			}
+			if len(g.failed) == 0 {
+				continue
+			}
+		}
+		if len(g.failed) == len(g.ran) && len(g.ran) > 1 {
+			// independent of the delivery schedule
+			for _, s := range order {
+				if mm := g.failed[s.name]; mm != nil {
+					m.r.Violate(gk.key("*"), fmt.Sprintf("%s (differs under each of the %d schedules it was run with; %d differing runs)", mm.what, len(g.ran), g.nfail), mm.rp)
+					break
+				}
+			}
+			continue
+		}
+		for _, s := range order {
+			if mm := g.failed[s.name]; mm != nil {
+				m.r.Violate(gk.key(s.name), mm.what, mm.rp)
+			}
+		}
+	}
 }
 
 func (m *monitor) readAhead(layer string, f *dfile, s sched, bufio, buf int, a *ahead) {
@@ -407,13 +610,11 @@ func (m *monitor) runTask(t task) {
 		got, ah := m.runDecrypt(f, src, cr, s.own, b)
 		r.Eval(1)
 		r.Distinct(fmt.Sprintf("decrypt/%s/%s/%d", f.name(), s.name, b))
-		r.Tab("read_buffer", fmt.Sprint(b))
+		r.Tab("read_buffer_or_mode", bufName(b))
 		if cr != nil {
 			r.Count("runs_with_counted_source", 1)
 		}
-		if !got.equal(f.bDecrypt) {
-			m.differs("age.Decrypt", f, s, 0, b, got, f.bDecrypt)
-		}
+		m.compare("age.Decrypt", f, s, 0, b, got, f.bDecrypt)
 		m.readAhead("age.Decrypt", f, s, 0, b, ah)
 	}
 
@@ -424,9 +625,7 @@ func (m *monitor) runTask(t task) {
 			got, ah := m.runDearmor(f, src, cr, s.own, b)
 			r.Eval(1)
 			r.Distinct(fmt.Sprintf("dearmor/%s/%s/%d", f.name(), s.name, b))
-			if !got.equal(f.bDearmor) {
-				m.differs("armor.NewReader", f, s, 0, b, got, f.bDearmor)
-			}
+			m.compare("armor.NewReader", f, s, 0, b, got, f.bDearmor)
 			m.readAhead("armor.NewReader", f, s, 0, b, ah)
 		}
 	}
@@ -442,7 +641,7 @@ func (m *monitor) runTask(t task) {
 	// layer 3: format.Parse directly
 	if f.bParse != nil {
 		for _, bs := range bufios {
-			for _, b := range []int{1, 4096} {
+			for _, b := range []int{7, 4096, ax.CopyMode} {
 				src, cr := s.mk(f.data, rngFor("parse", bs, b))
 				in := src
 				if bs > 0 {
@@ -452,9 +651,7 @@ func (m *monitor) runTask(t task) {
 				r.Eval(1)
 				r.Distinct(fmt.Sprintf("parse/%s/%s/%d/%d", f.name(), s.name, bs, b))
 				r.Tab("parse_handed_in_bufio", fmt.Sprint(bs))
-				if !got.equal(f.bParse) {
-					m.differs("format.Parse", f, s, bs, b, got, f.bParse)
-				}
+				m.compare("format.Parse", f, s, bs, b, got, f.bParse)
 				m.readAhead("format.Parse", f, s, bs, b, ah)
 			}
 		}
@@ -462,12 +659,15 @@ func (m *monitor) runTask(t task) {
 
 	// layer 4: stream.NewReader directly
 	if f.bStream != nil {
-		sb := bufios
+		sb, rb := bufios, []int{1, 100, 65536, 65537, ax.CopyMode, ax.ReadAllMode}
 		if len(sb) > 1 {
 			sb = []int{0, 16, 4096}
 		}
+		if !r.Thorough() {
+			rb = []int{1, 65537, ax.CopyMode}
+		}
 		for _, bs := range sb {
-			for _, b := range []int{1, 100, 65536, 65537} {
+			for _, b := range rb {
 				src, cr := s.mk(f.payload(), rngFor("stream", bs, b))
 				in := src
 				if bs > 0 {
@@ -477,9 +677,7 @@ func (m *monitor) runTask(t task) {
 				r.Eval(1)
 				r.Distinct(fmt.Sprintf("stream/%s/%s/%d/%d", f.name(), s.name, bs, b))
 				r.Tab("stream_handed_in_bufio", fmt.Sprint(bs))
-				if !got.equal(f.bStream) {
-					m.differs("stream.NewReader", f, s, bs, b, got, f.bStream)
-				}
+				m.compare("stream.NewReader", f, s, bs, b, got, f.bStream)
 				m.readAhead("stream.NewReader", f, s, bs, b, ah)
 			}
 		}
